@@ -1,7 +1,7 @@
 (* C02 — shutdown always terminates cleanly; pause and resume make progress.
    Only statements; proofs in Proofs/ThreadsInv.v, Proofs/ThreadsInv2.v, Proofs/ThreadsMon.v, Proofs/ThreadsLive.v. *)
 From Coq Require Import List Bool Arith.
-From Pamiq Require Import Model.Threads Check.Sys Proofs.ThreadsInv Proofs.ThreadsInv2 Proofs.ThreadsMon Proofs.ThreadsLive.
+From Pamiq Require Import Model.Threads Check.Sys Proofs.ThreadsInv Proofs.ThreadsInv2 Proofs.ThreadsMon Proofs.ThreadsLive Proofs.ThreadsInterrupt.
 Import ListNotations.
 
 (* For any number of threads, any attempt limit, EVERY accepted trace (all command histories incl.
@@ -78,3 +78,23 @@ Theorem C02_control_thread_winds_down : forall n kind max_attempts qmax with_web
   cdist n (cp s') < cdist n (cp s).
 Proof. exact control_thread_winds_down. Qed.
 Print Assumptions C02_control_thread_winds_down.
+
+(* Keyboard interrupts: the model accepts one before every operation of the control tick except inside the
+   worker-pool section of try_pause and inside a state save (not during start-up, not inside the finally clause,
+   not in the epilogue of launch()), ... *)
+Theorem C02_interrupt_accepted_iff : forall n kind max_attempts with_web s,
+  (exists s', ctl_step n kind max_attempts with_web s LInterrupt = Some s') <-> interruptible (cp s) = true.
+Proof. exact interrupt_accepted_iff. Qed.
+Print Assumptions C02_interrupt_accepted_iff.
+
+(* ... and there it leaves the tick for the finally clause, whose shutdown starts from the beginning - also when
+   the interrupt cut a shutdown short - with everything else as it was.  From that position the theorems above
+   apply: the shutdown goes through (C02_control_thread_winds_down), releases everybody (C02_shutdown_releases)
+   and launch() ends cleanly (C02_clean_end, C02_shutdown_terminates). *)
+Theorem C02_interrupt_enters_finally : forall n kind max_attempts with_web s s',
+  ctl_step n kind max_attempts with_web s LInterrupt = Some s' ->
+  cp s' = CShut0 KFinally /\ saving s' = false /\
+  res s' = res s /\ shut s' = shut s /\ queue s' = queue s /\ acked s' = acked s /\ clk s' = clk s /\
+  running s' = running s /\ craised s' = craised s /\ bp s' = bp s /\ pf s' = pf s /\ ex s' = ex s.
+Proof. exact interrupt_enters_finally. Qed.
+Print Assumptions C02_interrupt_enters_finally.
